@@ -356,7 +356,19 @@ func (prog Progress) focusedTransform(n datamodel.Node, na datamodel.NodeAssembl
 			}
 			if ti == i {
 				prog.Path = prog.Path.AppendSegment(seg)
-				if err := prog.focusedTransform(v, la.AssembleValue(), p2, fn, createParents); err != nil {
+				if p2.Len() == 0 {
+					// The target itself: call the TransformFn here, because a nil replacement means
+					//  "remove this", and for that we must not even begin assembling a value.
+					n2, err := fn(prog, v)
+					if err != nil {
+						return err
+					}
+					if n2 != nil {
+						if err := la.AssembleValue().AssignNode(n2); err != nil {
+							return err
+						}
+					}
+				} else if err := prog.focusedTransform(v, la.AssembleValue(), p2, fn, createParents); err != nil {
 					return err
 				}
 				replaced = true
